@@ -334,3 +334,48 @@ def fold_text_family(repo: Repo, family: str) -> dict | None:
         return None
     except (TypeError, KeyError, IndexError, ValueError, AttributeError, AssertionError, UnicodeError):
         return None
+
+
+def fold_text_arrays(repo: Repo) -> dict | None:
+    """CharArray._write / WcharArray._write over (kind of array, value): what is written is the encoding of the value (raw bytes; UTF-16 in the
+    current byte order, where one character may take two code units) plus the terminator of a null-terminated array - nothing is added, nothing
+    refused because len(str) differs from the number of code units."""
+    out: dict = {"cases": 0, "bad": []}
+    try:
+        for family, wide in (("CharArray", False), ("WcharArray", True)):
+            wr = repo.lookup_method(family, "_write")
+            if wr is None:
+                raise Refused(f"{family}._write not found")
+            wchar = repo.cls("Wchar")
+            for endian in "<>":
+                codec = "utf-16-le" if endian == "<" else "utf-16-be"
+                enc_map = Evaluator({}).ev(wchar.attrs["__encoding_map__"], {"sys": Sym("sys", {"byteorder": sys.byteorder})}) if "__encoding_map__" in wchar.attrs else {}
+                values = (["ab", "a\U0001f600", "h\u00e9llo", ""] if wide else [b"ab", b"\xff\x00\x01", [65, 66], "ab", b""])
+                for v in values:
+                    for kind in ("fixed", "dynamic", "null-terminated"):
+                        if wide:
+                            raw = v.encode(codec)
+                            units = len(raw) // 2
+                        else:
+                            raw = bytes(v) if isinstance(v, list) else (v.encode("latin-1") if isinstance(v, str) else v)
+                            units = len(raw)
+                        attrs = {"cs": Sym("cs", {"endian": endian}), "null_terminated": kind == "null-terminated", "dynamic": kind != "fixed",
+                                 "num_entries": units if kind == "fixed" else None, "size": (units * (2 if wide else 1)) if kind == "fixed" else None, "__name__": family}
+                        cls = Sym(family, attrs)
+                        st = Stream()
+                        env = {"Wchar": Sym("Wchar", {"__encoding_map__": enc_map}), "isinstance": Host(_text_isinstance), "bytes": bytes, "str": str, "list": list, "int": int,
+                               "len": len, "ArraySizeError": Sym("ArraySizeError")}
+                        want = raw + ((b"\x00\x00" if wide else b"\x00") if kind == "null-terminated" else b"")
+                        try:
+                            r = Evaluator(env, steps=3000).call_user(UserFunc(wr.node), [cls, st.sym(), list(v) if isinstance(v, list) else v], {})
+                            got: Any = (r, bytes(st.written))
+                        except Raised as e:
+                            got = f"raise {e}"
+                        out["cases"] += 1
+                        if got != (len(want), want):
+                            out["bad"].append((family, f"endian={endian}", kind, v if not isinstance(v, bytes) else v.hex(), got if isinstance(got, str) else (got[0], got[1].hex()), want.hex()))
+        return out
+    except (Refused, Exhausted):
+        return None
+    except (TypeError, KeyError, IndexError, ValueError, AttributeError):
+        return None
